@@ -346,6 +346,28 @@ impl From<&edwards::EdwardsPoint> for NafLookupTable8<CachedPoint> {
     }
 }
 
+/// Verification hooks: raw access to the packed coordinates.
+#[cfg(curve25519_dalek_verif)]
+impl ExtendedPoint {
+    pub(crate) fn verif_inner(&self) -> FieldElement2625x4 {
+        self.0
+    }
+    pub(crate) fn verif_from_inner(f: FieldElement2625x4) -> ExtendedPoint {
+        ExtendedPoint(f)
+    }
+}
+
+/// Verification hooks: raw access to the packed coordinates.
+#[cfg(curve25519_dalek_verif)]
+impl CachedPoint {
+    pub(crate) fn verif_inner(&self) -> FieldElement2625x4 {
+        self.0
+    }
+    pub(crate) fn verif_from_inner(f: FieldElement2625x4) -> CachedPoint {
+        CachedPoint(f)
+    }
+}
+
 #[cfg(target_feature = "avx2")]
 #[cfg(test)]
 mod test {
